@@ -68,12 +68,12 @@ import SwcVerif.Props.C16Tree2
 #print axioms C16Tree.rep_of_ranked
 #print axioms C16Tree2.branch_pre_lt
 #print axioms C16Tree.branchTree_ranked
-#print axioms C16Tree.generated_resample_tree_wf
+#print axioms C16Tree.generated_resample_tree_wf_rootfuel_partial
 #print axioms RefineAsm.rep_exists_sized
 #print axioms RefineAsm.Desc.disjoint
 #print axioms C16Tree.rep_of_ranked_sized
 #print axioms C16Tree.branches_length_le
-#print axioms C16Tree.generated_resample_tree_wf_full
+#print axioms C16Tree.generated_resample_tree_wf
 #print axioms C16.pairArgmin_spec
 #print axioms C16.pair_step_inv
 #print axioms C16.pair_exact
